@@ -292,26 +292,12 @@ def _translate_all_expression_to_a_module(
 # noinspection PyTypeChecker
 def _is_plain_lookup(node: ast.expr) -> bool:
     """
-    Check that re-computing the ``node`` only looks up names and constants and combines them with boolean operations.
+    Check that re-computing the ``node`` only looks up a name or a constant.
 
     Such a re-computation can not run any user code (as opposed to, *e.g.*, getting an attribute which is a property,
-    a subscription or arithmetics on user-defined types).
+    a subscription, arithmetics on user-defined types or a boolean operation, which tests the truth of its operands).
     """
-    return all(
-        isinstance(
-            a_node,
-            (
-                ast.Name,
-                ast.Constant,
-                ast.BoolOp,
-                ast.And,
-                ast.Or,
-                ast.Load,
-                ast.expr_context,
-            ),
-        )
-        for a_node in ast.walk(node)
-    )
+    return isinstance(node, (ast.Name, ast.Constant))
 
 
 class Visitor(ast.NodeVisitor):
